@@ -459,6 +459,14 @@ def run_d1(acc, mode, aname):
                         bad = stale_attrs(ureg, o[1]) if o[0] == "ok" else []
                         if bad:
                             acc.violation(["inplace-consistency", opname, form, "derived-attribute-stale-after-in-place-operation", mode], {"mode": mode, "tree": [aname, opname, bname], "spellings": [list(sa), list(sb)], "attributes": bad}, "attributes that follow the unit container", bad)
+                        # the same update followed, WITHOUT looking at the object in between, by an in-place rescale
+                        a2, b2 = warm(mk_leaf(ureg, mode, sa)), mk_leaf(ureg, mode, sb)
+                        o2 = run_op(lambda: IOPS[opname](a2, b2))
+                        if o2[0] == "ok" and hasattr(o2[1], "_units"):
+                            o3 = run_op(lambda: o2[1].ito_root_units())
+                            bad = stale_attrs(ureg, o2[1]) if o3[0] == "ok" else []
+                            if bad:
+                                acc.violation(["inplace-consistency", opname, "inplace+ito_root_units", "derived-attribute-stale-after-in-place-operation", mode], {"mode": mode, "tree": [aname, opname, bname], "spellings": [list(sa), list(sb)], "attributes": bad}, "attributes that follow the unit container", bad)
                     acc.ev()
                     if (sa, sb) != (LEAVES[aname][0], LEAVES[bname][0]):
                         acc.nt((mode, opname, form, aname, bname, sa, sb))
